@@ -148,3 +148,92 @@ Proof. exact (@Client_props2.C15_close_one_keeps_peer_served). Qed.
 
 Print Assumptions C15_extra_connection_keeps_state.
 Print Assumptions C15_close_one_keeps_peer_served.
+
+(* ---- at trace level (package N, Client_proofs10..14): for EVERY history of the client with any number of connections per peer
+   in which no poll finds a peer in a fault state while another connection remains (`churn_ok`, executable; the fault case is
+   the theorem after it), the history projected onto ONE connection per peer (further CNewConn erased, non-last CConnClosed
+   erased, reports and choices renamed) leaves the client in the same state up to connection names and produces the SAME list
+   of (peer, full, entries) wantlists in the same order and the same other outputs: extra connections neither duplicate nor
+   reset nor reorder anything that is sent, and each wantlist goes over exactly one existing connection.  `churn_ok` is needed
+   (…_refuted: with a fault and a remaining connection the several-connection client sends a second full wantlist where the
+   one-connection client drops the peer) — that case is C15_trace_close_sending_connection: a FULL wantlist over a remaining
+   connection, the peer's answers kept. *)
+From BS Require Import Types Wantlist Wantlist_proofs Client Client_proofs Client_proofs10 Client_proofs13 Client_proofs14 Client_props3.
+From Coq Require Import ZArith List. Import ListNotations.
+Open Scope N_scope.
+
+Theorem C15_trace_connection_independence :
+  forall (K : peer -> conn) (sdh : bool) (ops : list cop),
+  churn_ok sdh ops = true ->
+  let ops1 := project K sdh ops in
+  st_after sdh ops1 = norm K (st_after sdh ops) /\
+  sim (st_after sdh ops) (st_after sdh ops1) /\
+  single_conn_state K (st_after sdh ops1) /\
+  forallb (op_single K) ops1 = true /\
+  filter not_bad (outs_after sdh ops1) = map (norm_out K) (filter not_bad (outs_after sdh ops)) /\
+  sent (outs_after sdh ops1) = sent (outs_after sdh ops) /\
+  filter other_out (outs_after sdh ops1) = filter other_out (outs_after sdh ops).
+Proof. exact (@Client_props3.C15_trace_connection_independence). Qed.
+
+Theorem C15_trace_connection_independence_refuted :
+  exists ops : list cop,
+    churn_ok true ops = false /\
+    sent (outs_after true ops) = [(7, true, []); (7, true, [])] /\
+    sent (outs_after true (project K0 true ops)) = [(7, true, [])] /\
+    al_find N.eqb 7 (cs_peers (st_after true ops)) <> None /\
+    al_find N.eqb 7 (cs_peers (st_after true (project K0 true ops))) = None.
+Proof. exact (@Client_props3.C15_trace_connection_independence_refuted). Qed.
+
+Theorem C15_trace_close_sending_connection :
+  forall (K : peer -> conn) (sdh : bool) (ops1 : list cop) (p : N) (c c' : conn) (ps : peer_state)
+    (ch : list (peer * conn)) (ops2 : list cop),
+  let s1 := st_after sdh ops1 in
+  al_find N.eqb p (cs_peers s1) = Some ps ->
+  report_accepted ps c = true ->
+  In c' (p_conns ps) ->
+  c' <> c ->
+  let ops := ops1 ++ [CReport p c (RpFailed c); CConnClosed p c] in
+  let s := st_after sdh ops in
+  let s' := st_after sdh (ops ++ [CPoll ch]) in
+  al_find N.eqb p (cs_peers s) =
+  Some
+    {|
+      p_conns := n_remove c (p_conns ps); p_ss := SsFailed c; p_wl := p_wl ps; p_send_full := p_send_full ps
+    |} /\
+  churn_ok_from s [CPoll ch] = false /\
+  (exists (c1 : conn) (es : list gen_entry), In (OSendWantlist p c1 true es) (snd (c_poll s ch))) /\
+  (forall (c1 : conn) (f : bool) (es : list gen_entry),
+   In (OSendWantlist p c1 f es) (snd (c_poll s ch)) -> f = true /\ c1 <> c /\ In c1 (p_conns ps)) /\
+  al_find N.eqb p (cs_peers s') <> None /\
+  (churn_ok_from s' ops2 = true ->
+   let s2 := run_st (norm K s') (project_from K s' ops2) in
+   s2 = norm K (st_after sdh (ops ++ CPoll ch :: ops2)) /\
+   sim (st_after sdh (ops ++ CPoll ch :: ops2)) s2 /\
+   single_conn_state K s2 /\
+   sent (run_outs (norm K s') (project_from K s' ops2)) = sent (run_outs s' ops2) /\
+   filter other_out (run_outs (norm K s') (project_from K s' ops2)) = filter other_out (run_outs s' ops2)) /\
+  (churn_ok sdh ops1 = true ->
+   let H := project K sdh ops1 ++ [CReport p (K p) (RpFailed (K p))] in
+   (forall (c1 : conn) (f : bool) (es : list gen_entry),
+    ~ In (OSendWantlist p c1 f es) (snd (c_poll (st_after sdh H) (ren_choice K ch)))) /\
+   al_find N.eqb p (cs_peers (st_after sdh (H ++ [CPoll (ren_choice K ch)]))) = None).
+Proof. exact (@Client_props3.C15_trace_close_sending_connection). Qed.
+
+Theorem C15_one_connection_suffices :
+  forall (K : peer -> conn) (sdh : bool) (ops : list cop),
+  churn_ok sdh ops = true ->
+  exists ops1 : list cop,
+    forallb (op_single K) ops1 = true /\
+    churn_ok sdh ops1 = true /\
+    single_conn_state K (st_after sdh ops1) /\
+    sim (st_after sdh ops) (st_after sdh ops1) /\
+    sent (outs_after sdh ops1) = sent (outs_after sdh ops) /\
+    filter other_out (outs_after sdh ops1) = filter other_out (outs_after sdh ops) /\
+    (forall (p : peer) (c : conn) (f : bool) (es : list gen_entry),
+     In (OSendWantlist p c f es) (outs_after sdh ops1) -> c = K p).
+Proof. exact (@Client_props3.C15_one_connection_suffices). Qed.
+
+Print Assumptions C15_trace_connection_independence.
+Print Assumptions C15_trace_connection_independence_refuted.
+Print Assumptions C15_trace_close_sending_connection.
+Print Assumptions C15_one_connection_suffices.
